@@ -12,12 +12,12 @@ import (
 )
 
 var (
-	vfInputVec  []uint64
-	vfInputPos  int
-	vfShapeMap  = map[string]int{}
-	vfShapeSeq  = map[string]int{}
-	vfFailed    string
-	vfCovered   []string
+	vfInputVec          []uint64
+	vfInputPos          int
+	vfShapeMap          = map[string]int{}
+	vfShapeSeq          = map[string]int{}
+	vfFailed            string
+	vfCovered           []string
 	vfConcurrentHarness bool
 )
 
@@ -74,11 +74,13 @@ func vfHavocBytes(b []byte) {
 func vfAlign(b []byte, align int)  {}
 func vfNote(s string)              {}
 func vfShared(b []byte, align int) {}
-func vfSpawn(f func())             { panic("VFREPLAY: concurrent harness cannot be replayed by the sequential runner") }
-func vfJoin()                      {}
-func vfAtomicBegin()               {}
-func vfAtomicEnd()                 {}
-func vfYield()                     {}
+func vfSpawn(f func()) {
+	panic("VFREPLAY: concurrent harness cannot be replayed by the sequential runner")
+}
+func vfJoin()        {}
+func vfAtomicBegin() {}
+func vfAtomicEnd()   {}
+func vfYield()       {}
 func vfSameObject(a, b []byte) bool {
 	if cap(a) == 0 || cap(b) == 0 {
 		return false
@@ -88,7 +90,7 @@ func vfSameObject(a, b []byte) bool {
 }
 func vfOverlap(a, b []byte) bool { return false }
 func vfOffsetOf(a []byte) int    { return -1 }
-func vfPrune() { panic("VFREPLAY: pruned shape case") }
+func vfPrune()                   { panic("VFREPLAY: pruned shape case") }
 
 func vfOffsetIn(a, region []byte) int {
 	if cap(a) == 0 || cap(region) == 0 {
@@ -101,5 +103,9 @@ func vfOffsetIn(a, region []byte) int {
 	}
 	return int(pa - pr)
 }
-func vfSpawnAtomic(f func()) { panic("VFREPLAY: concurrent harness cannot be replayed by the sequential runner") }
-func vfSpawnCut(f func(), cut int) { panic("VFREPLAY: concurrent harness cannot be replayed by the sequential runner") }
+func vfSpawnAtomic(f func()) {
+	panic("VFREPLAY: concurrent harness cannot be replayed by the sequential runner")
+}
+func vfSpawnCut(f func(), cut int) {
+	panic("VFREPLAY: concurrent harness cannot be replayed by the sequential runner")
+}
